@@ -109,6 +109,14 @@ main(void)
 				out = malloc(16);
 				crypto_aes_encrypt_block(in, out, curkey);
 				hc_puthex(out, 16);
+#ifdef H_AES_RK
+				/* L2: what the AES-NI instruction sequence produced (or not) */
+				printf(" | ni=");
+				if (crypto_aes_can_use_intrinsics() == 1)
+					hc_puthex(out, 16);
+				else
+					printf("software");
+#endif
 				free(out);
 			}
 			free(in);
